@@ -39,7 +39,7 @@ def one(kind, prop, patch, expect):
     os.makedirs(d)
     repo = os.path.join(d, 'repo')
     subprocess.run(['rsync', '-a', '--exclude', '.git', REPO + '/', repo + '/'], check=True)
-    ap = subprocess.run(['patch', '-p1', '-s', '-d', repo, '-i', os.path.abspath(patch)], capture_output=True, text=True)
+    ap = subprocess.run(['patch', '-p1', '-s', '--no-backup-if-mismatch', '-d', repo, '-i', os.path.abspath(patch)], capture_output=True, text=True)
     if ap.returncode != 0:
         shutil.rmtree(d, ignore_errors=True)
         return (name, False, 'patch does not apply: ' + ap.stdout[-300:] + ap.stderr[-300:])
@@ -52,7 +52,8 @@ def one(kind, prop, patch, expect):
     ok = r.returncode == 1 and bool(viol)
     if ok and expect:
         ok = any(expect in v for v in viol)
-    return (name, ok, 'exit=%d expect=%r got=%s' % (r.returncode, expect, '; '.join(re.sub(r'.*obligation=', '', v)[:120] for v in viol[:4]) or r.stdout[-300:] + r.stderr[-300:]))
+    replayed = sum(1 for v in viol if not v.rstrip().endswith('no-failing-input-found'))
+    return (name, ok, 'exit=%d replayed=%d/%d expect=%r got=%s' % (r.returncode, replayed, len(viol), expect, '; '.join(re.sub(r'.*obligation=', '', v)[:120] for v in viol[:4]) or r.stdout[-300:] + r.stderr[-300:]))
 
 def main():
     only = sys.argv[1:] 
